@@ -152,6 +152,9 @@ Qed.
 Definition closing_pc (pc : cpc) : Prop :=
   match pc with CCollect _ _ _ | CDone _ => True | _ => False end.
 Definition done_pc (pc : cpc) : Prop := match pc with CDone _ => True | _ => False end.
+(* Run has not yet set the inner manager going *)
+Definition pre_setup (pc : cpc) : Prop :=
+  match pc with CIdle | CStarted | CDecided _ => True | _ => False end.
 
 Record cinv (v : variant) (grace : bool) (bs : list beh) (s : cstate) : Prop := mkcinv {
   ci_inner : rinv v bs (inner s);
@@ -159,7 +162,7 @@ Record cinv (v : variant) (grace : bool) (bs : list beh) (s : cstate) : Prop := 
   ci_notrun : c_running s = false -> c_pc s = CIdle /\ c_stopped s = false;
   ci_early : ~ closing_pc (c_pc s) -> c_procs s = [] /\ c_closing s = false;
   ci_closing : closing_pc (c_pc s) -> c_closing s = true;
-  ci_inner_idle : c_pc s = CIdle \/ c_pc s = CStarted ->
+  ci_inner_idle : pre_setup (c_pc s) ->
                   r_pc (inner s) = RIdle /\ r_running (inner s) = false;
   ci_stopped : c_stopped s = true -> c_pc s = CIdle \/ done_pc (c_pc s);
   ci_done_stopped : forall e, c_pc s = CDone e -> c_stopped s = true /\ reterr s = e;
@@ -201,7 +204,7 @@ Qed.
 Ltac cfin :=
   cbn [inner c_running c_closing c_stopped closers c_pc c_procs fch_closed timer_fired fired_early
        fatal_count tie reterr addcl closes run_rejected cadds w_inner w_pc w_procs w_addcl w_closes
-       w_cadds closing_pc done_pc];
+       w_cadds closing_pc done_pc pre_setup];
   try assumption; try discriminate; try (intros; discriminate); auto;
   try (let Hx := fresh in intros Hx; exfalso; exact Hx);
   try (let Hx := fresh in intros Hx; exfalso; apply Hx; exact I);
@@ -222,20 +225,19 @@ Qed.
 Lemma fatal_state_fresh cs : decidedb (fatal_state (map (fun c => mkc c CSpawned 0) cs)) = false.
 Proof. induction cs as [|c cs IH]; cbn; auto. destruct (is_fatal c); auto. Qed.
 
-Lemma setup_inner v bs i0 s1 y :
+Lemma setup_inner v bs (w : bool) i0 s1 y :
   rinv v bs i0 ->
-  match r_runners i0 with
-  | [] => Some i0
-  | _ :: _ => match step_r v i0 (RAddCheck CloseRunner) with
-              | Some x => step_r v x (RAddAppend (length (r_adds i0)))
-              | None => None
-              end
-  end = Some s1 ->
+  (if w : bool
+   then match step_r v i0 (RAddCheck CloseRunner) with
+        | Some x => step_r v x (RAddAppend (length (r_adds i0)))
+        | None => None
+        end
+   else Some i0) = Some s1 ->
   step_r v s1 RRunCas = Some y -> rinv v bs y.
 Proof.
   intros I H1 H2.
   assert (I1 : rinv v bs s1).
-  { destruct (r_runners i0); [inv H1; auto|].
+  { destruct w; [|inv H1; auto].
     destruct (step_r v i0 (RAddCheck CloseRunner)) as [x|] eqn:Ex; try discriminate.
     eapply rinv_step; [eapply rinv_step; [exact I | exact Ex] | exact H1]. }
   eapply rinv_step; eauto.
@@ -252,7 +254,13 @@ Proof.
     + constructor; cfin.
     + destruct (Inot eq_refl) as [Hpc Hst]. constructor; cfin.
       * intros _. apply Iearly. rewrite Hpc. cbn. tauto.
+      * intros _. apply Iidle. rewrite Hpc. exact Logic.I.
       * intros _. apply Ireterr. rewrite Hpc. cbn. tauto.
+  - (* CSetupLen *)
+    destruct (c_pc s) eqn:Epc; try discriminate. inv H.
+    assert (Hrun : c_running s = true) by (apply Irun; discriminate).
+    constructor; cfin.
+    intro Hs; destruct (Istop Hs) as [Hx|Hx]; [discriminate Hx | cbn in Hx; tauto].
   - (* CSetup *)
     destruct (c_pc s) eqn:Epc; try discriminate.
     assert (Hrun : c_running s = true) by (apply Irun; discriminate).
@@ -365,12 +373,12 @@ Proof.
     + intros _. rewrite Hfc, Htie. cbn [orb]. split; [lia|]. split; [intro; lia|].
       intro Htf. split; [intro; lia|]. intro Hfe. apply J1 in Hfe. congruence.
   - (* CCloseFatalCh *)
-    destruct (c_pc s) as [| | |n i errs|] eqn:Epc; try discriminate.
+    destruct (c_pc s) as [| | | |n i errs|] eqn:Epc; try discriminate.
     destruct ((i =? n)%nat && negb (fch_closed s)); inv H.
     assert (Hrun : c_running s = true) by (apply Irun; discriminate).
     constructor; cfin.
   - (* CCollectCloser *)
-    destruct (c_pc s) as [| | |n i errs|] eqn:Epc; try discriminate.
+    destruct (c_pc s) as [| | | |n i errs|] eqn:Epc; try discriminate.
     destruct (nth_error (c_procs s) j) as [p|] eqn:Ep; try discriminate.
     destruct (c_st p) eqn:Est; try discriminate.
     destruct ((i <=? n)%nat && (negb (i =? n)%nat || fch_closed s)); inv H.
@@ -393,7 +401,7 @@ Proof.
     + intros q Hq. apply in_upd in Hq. destruct Hq as [Hq|[p' [E ->]]]; [auto|].
       rewrite Ep in E; inv E. cbn. rewrite (Istarts p' (nth_error_In _ _ Ep)), Est. reflexivity.
   - (* CRunReturn *)
-    destruct (c_pc s) as [| | |n i errs|] eqn:Epc; try discriminate.
+    destruct (c_pc s) as [| | | |n i errs|] eqn:Epc; try discriminate.
     destruct (i <=? n)%nat eqn:Ein; inv H.
     assert (Hrun : c_running s = true) by (apply Irun; discriminate).
     destruct (Icoll n i errs eq_refl) as [Hn [Hi [rerrs [Hr HP]]]].
